@@ -74,7 +74,7 @@ theorem streamTrailerRead_get_other (k : Bytes) (h1 : ¬ TYPE = k) (h2 : ¬ SIZE
 end
 
 /-- **`Reader::read` on a cross-reference-stream save, up to the object pass.** -/
-theorem load_front_of_save_stream (arr : List Block → List Block) (d : SDoc) (out : Bytes) (d' : SDoc)
+theorem load_front_of_save_stream (arr : List Block → List Block) (arr2 : List ObjId → List ObjId) (d : SDoc) (out : Bytes) (d' : SDoc)
     (hk : d.xrefKind = .stream) (h : saveFrom [] d = some (out, d')) (hlen : out.length < 4294967296)
     (hmax : d.maxId + 2 ≤ 4294967295) (hg : GensOk d) (hnd : d.trailer.keys.Nodup)
     (hD : DictReadsBack d'.trailer (STREAM_KW ++ (xrefStreamContent (streamSecs (xmapStream [] d) (d.maxId + 1))
@@ -84,8 +84,8 @@ theorem load_front_of_save_stream (arr : List Block → List Block) (d : SDoc) (
     ∃ table,
       (∀ n, table.get n = if 1 ≤ n ∧ n ≤ d.maxId + 1 then normalOf (xmapStream [] d) n else none) ∧
       (table.map (·.1)).Nodup ∧
-      loadDocWith arr out
-        = objectPass arr out d.version d.binaryMark table (streamTrailerRead [] d) (bodyOf [] d).length := by
+      loadDocWith arr arr2 out
+        = objectPass arr arr2 out d.version d.binaryMark table (streamTrailerRead [] d) (bodyOf [] d).length := by
   obtain ⟨xs, table, hxs, hle, hxt, hget, _, hnodup⟩ :=
     load_xref_of_save_stream [] d out d' hk h hlen hmax hg hnd hD
   have hxs' : xs = (bodyOf [] d).length := by
@@ -94,7 +94,7 @@ theorem load_front_of_save_stream (arr : List Block → List Block) (d : SDoc) (
   subst hxs'
   obtain ⟨R, hR⟩ := saveFrom_header d out d' h
   refine ⟨table, hget, hnodup, ?_⟩
-  apply load_front arr out d.version d.binaryMark R hR hv1 hv2 (saveFrom_mark [] d out d' h) _ hxs hle
+  apply load_front arr arr2 out d.version d.binaryMark R hR hv1 hv2 (saveFrom_mark [] d out d' h) _ hxs hle
     table (d.maxId + 2) (streamTrailerRead [] d) hxt
   · rw [streamTrailerRead_get_other [] d hnd PREV (by decide) (by decide) (by decide) (by decide) (by decide)
       (by decide)]
@@ -123,7 +123,7 @@ def objectsWithXref (d : SDoc) : Objects := d.objects ++ [((d.maxId + 1, 0), xre
 trips).** As `load_of_save_table_with`; the loaded document additionally holds the
 cross-reference stream object under `(max_id + 1, 0)`, and its trailer is the stream dictionary
 minus `Length`, `W`, `Index`. -/
-theorem load_of_save_stream_with (arr : List Block → List Block) (harr : arr [] = []) (d : SDoc) (out : Bytes)
+theorem load_of_save_stream_with (arr : List Block → List Block) (arr2 : List ObjId → List ObjId) (harr : arr [] = []) (harr2 : arr2 [] = []) (d : SDoc) (out : Bytes)
     (d' : SDoc) (hk : d.xrefKind = .stream) (h : saveFrom [] d = some (out, d'))
     (hlen : out.length < 4294967296) (hmax : d.maxId + 2 ≤ 4294967295) (hwf : DocWF d)
     (hnd : d.trailer.keys.Nodup)
@@ -132,11 +132,11 @@ theorem load_of_save_stream_with (arr : List Block → List Block) (harr : arr [
     (hobj : ∀ p ∈ d.objects, IndirectReadsBack p.1.1 p.1.2 p.2)
     (hv1 : ∀ b ∈ d.version, notEol b = true) (hv2 : validUtf8 d.version = true)
     (hprev : d.trailer.get PREV = none) (henc : d.trailer.has ENCRYPT = false) :
-    ∃ L : Loaded, loadDocWith arr out = .ok L ∧ L.version = d.version ∧ L.binaryMark = d.binaryMark ∧
+    ∃ L : Loaded, loadDocWith arr arr2 out = .ok L ∧ L.version = d.version ∧ L.binaryMark = d.binaryMark ∧
       L.trailer = streamTrailerRead [] d ∧ L.xrefStart = (bodyOf [] d).length ∧ L.maxId ≤ d.maxId + 1 ∧
       ∀ id, L.objects.get id = (objectsWithXref d).get id := by
   obtain ⟨table, hget, hnodup, hload⟩ :=
-    load_front_of_save_stream arr d out d' hk h hlen hmax hwf.gens hnd hD hv1 hv2 hprev henc
+    load_front_of_save_stream arr arr2 d out d' hk h hlen hmax hwf.gens hnd hD hv1 hv2 hprev henc
   obtain ⟨hout, htr⟩ := saveFrom_stream_eq [] d out d' hk h
   have hb := body_le_out [] d out d' h
   have hbl : (bodyOf [] d).length < 4294967296 := by omega
@@ -244,7 +244,7 @@ theorem load_of_save_stream_with (arr : List Block → List Block) (harr : arr [
       exact this
     · rw [hallOther k g hn] at hog
       exact hobj ((k, g), o) (Objects_mem_of_get d.objects (k, g) o hog) _ _ _
-  obtain ⟨L, hL, l1, l2, l3, l4, l5, l6, _⟩ := objectPass_good arr harr out d.version d.binaryMark table
+  obtain ⟨L, hL, l1, l2, l3, l4, l5, l6, _⟩ := objectPass_good arr arr2 harr harr2 out d.version d.binaryMark table
     (streamTrailerRead [] d) (bodyOf [] d).length (objectsWithXref d) hgood
   refine ⟨L, by rw [hload]; exact hL, l1, l2, l3, l4, ?_, ?_⟩
   · rw [l5]
